@@ -39,6 +39,47 @@ CHECKS = {
    text="Every byte offset of a corpus of conversations as disconnect point x 3 terminal errors x 2 segmentations, and every server-initiated close reason x connection state x every suffix of a pool of buffered follow-up commands x 3 segmentations; all in synctest bubbles so that a goroutine that never finishes is reported by the runtime. Oracle on the backend trace: exactly one Logout per session, nothing begins after it, no session after the end.",
    note="goroutine *start* order is left to the Go scheduler (late start observed deterministically in practice); STARTTLS sessions judged in C10",
    tech="exhaustive fault-point enumeration (disconnect at every offset, every close reason x buffered suffix) on the real code"),
+
+ "C09": dict(engine="S/bfs + D", cat="model_checking", ref="DESIGN.md §4 C09",
+   text="Server half: explicit-state BFS to a fixpoint over {EHLO, NOOP, MAIL, RSET, STARTTLS, hundreds of scripted AUTH exchanges} x 12 configurations (TLS state x AllowInsecureAuth x backend kind), every transition on the real server in lock-step against the reference model; a recording SASL mechanism logs each octet string it is handed. Client half: exhaustive scripted client/server mechanism pairs over the real client and server.",
+   note="reference model ref/protocol.go (authStep); 5xx code for insecure AUTH not fixed by the statement",
+   tech="explicit-state BFS on the real handler + exhaustive enumeration of scripted SASL exchanges, conformance with a reference model"),
+ "C10": dict(engine="S/bfs + D", cat="model_checking", ref="DESIGN.md §4 C10",
+   text="Server: the BFS collects every reachable pre-STARTTLS state; for each state x injected plaintext x placement a real TLS upgrade is performed and 13 probe commands inside TLS are compared with the reference model; no injected command may execute once TLS is up. Client: all entry points x scripted misbehaving servers; raw octets before the handshake are inspected.",
+   note="loopback TCP for DialStartTLS/SendMail; a handshake broken by injected octets is 'no TLS session' and not judged further",
+   tech="explicit-state BFS for state collection + exhaustive state x fault (injection / server misbehaviour) enumeration on the real code"),
+ "C11": dict(engine="S/input", cat="exploration", ref="DESIGN.md §4 C11",
+   text="Grammar-derived valid lines, every single-point mutation of them and all short strings over the syntactically significant characters are sent to the real server; an independent reference grammar classifies each as valid (with expected mailbox and decoded option values) / definitely invalid / unspecified; valid => exact values at the backend, invalid => 5xx and no callback.",
+   note="ref/pathgrammar.go is the specification; a documented list of lenient/ambiguous forms is 'unspecified' and only checked for reply/callback consistency",
+   tech="exhaustive input enumeration (all short strings, all 1-point mutations) against an independent reference grammar"),
+ "C12": dict(engine="S/bfs sweep", cat="model_checking", ref="DESIGN.md §4 C12",
+   text="The complete configuration space (4096 incl. both routes to TLS-active) is enumerated; per configuration a lock-step conversation with the real server (real TLS) compares the EHLO keyword set with an independent capability function and probes every extension's command/parameter for 'advertised => accepted' and 'disabled => 504'.",
+   note="REQUIRETLS enabled but probed outside TLS is not judged",
+   tech="exhaustive enumeration of the finite configuration space on the real code"),
+ "C14": dict(engine="D", cat="exploration", ref="DESIGN.md §4 C14",
+   text="Codec pairs for all ASCII strings up to a length and every Unicode scalar; all short strings over an encoding-significant alphabet in every string-valued option, every scalar inside a UTF-8 ORCPT, and option subsets, each sent by the real client to the real server and compared at the backend.",
+   note="judged domain per field stated in the evidence rule; Body excluded (client always sends 8BITMIME)",
+   tech="exhaustive input enumeration through real client -> real server round trips"),
+ "C15": dict(engine="D (scripted server)", cat="exploration", ref="DESIGN.md §4 C15",
+   text="All 2^7 advertised-extension subsets x all option-field subsets (also after a second EHLO advertising a different subset) and all short hostile strings in every string-typed argument, against a scripted server; the raw octets written by each call are inspected.",
+   note="scripted server is a pure function line -> reply",
+   tech="exhaustive configuration x input enumeration on the real client, raw wire inspection"),
+ "C16": dict(engine="D", cat="exploration", ref="DESIGN.md §4 C16",
+   text="All bodies up to 6 (7) tokens over {'.', LF, CRLF, other} x all 2-split / per-octet / single Write partitions x verdict x {SMTP, LMTP} through the real client into the real server; backend octets compared with a reference normalisation; second Close must be a local error with no octet written.",
+   note="CR only as part of CRLF; deadlocks are detected by the synctest runtime, not by timeouts",
+   tech="exhaustive input x partition enumeration through real client -> real server"),
+ "C17": dict(engine="D", cat="exploration", ref="DESIGN.md §4 C17",
+   text="Codes x enhanced-code kinds x message shapes x callbacks (and generic errors) - the full product - through real server and real client; wire reply parsed strictly and the client's SMTPError compared field by field.",
+   note="NoEnhancedCode + text that parses as a code is ambiguous and only the reply code is judged",
+   tech="exhaustive enumeration of the stated finite product on the real code"),
+ "C18": dict(engine="D", cat="exploration", ref="DESIGN.md §4 C18",
+   text="All sequences of 1-2 (3) LMTP transactions x 1-3 recipients x per-recipient fate {refused at RCPT, ok, 4xx, 5xx} x {callback, no callback} x backend kind through the real LMTP client and server; a client waiting for replies that never come is a runtime-detected deadlock.",
+   note="exact deadlock oracle from testing/synctest",
+   tech="exhaustive history enumeration through real client <-> real server with an exact deadlock oracle"),
+ "C19": dict(engine="S/input", cat="exploration", ref="DESIGN.md §4 C19",
+   text="Line lengths around three limits x positions in the conversation x all 2-splits / per-octet segmentation, endless lines, all short strings over a hostile byte alphabet in three states, all sequences of valid/invalid commands around the error threshold; oracle: no panic (escaped or recovered), exact 500/close behaviour, bounded input consumption.",
+   note="known finding D6 demonstrated by a directed family; random binary input is a labelled supplement",
+   tech="exhaustive input x segmentation enumeration on the real code"),
 }
 NOT_YET = "check not built yet (work in progress, see DESIGN.md §4)"
 
@@ -50,7 +91,10 @@ m = {
            "baseline_off_cmd": "cd /repo && GOFLAGS=-mod=mod GOPROXY=off GOSUMDB=off GOTOOLCHAIN=local go test -vet=off -count=1 -json ./...",
            "source_commits": ["de8bd85"], "add_only": True},
  "engines": [
-   {"name": "S", "path": "/verif/h/server.go", "serves_properties": ["C01","C02","C03","C04","C05","C06","C07","C08"], "kind_free_text": "sequential exhaustive driver: real connection handler over a scripted in-memory net.Conn inside a testing/synctest bubble (exact quiescence and leak detection)"},
+   {"name": "S", "path": "/verif/h/server.go", "serves_properties": ["C01","C02","C03","C04","C05","C06","C07","C08","C09","C10","C11","C12","C19"], "kind_free_text": "sequential exhaustive driver: real connection handler over a scripted in-memory net.Conn inside a testing/synctest bubble (exact quiescence and leak detection)"},
+   {"name": "L", "path": "/verif/h/live.go", "serves_properties": ["C03","C04","C09","C10","C12"], "kind_free_text": "lock-step driver: real handler goroutine + in-memory duplex connection + synctest.Wait for exact quiescence after each command; real TLS handshakes"},
+   {"name": "BFS", "path": "/verif/checks/bfs.go", "serves_properties": ["C03","C04","C09","C10"], "kind_free_text": "explicit-state breadth-first search over command histories; successor = replay of the shortest history on a fresh real server + one abstract command; state key = private-state dump of the real Conn + reference-model state"},
+   {"name": "D", "path": "/verif/h/duplex.go", "serves_properties": ["C14","C15","C16","C17","C18","C09","C10"], "kind_free_text": "real smtp.Client <-> real server (or scripted server) over an in-memory connection inside a synctest bubble; deadlock = runtime-detected"},
  ],
  "checks": [], "not_applicable": [],
  "notes": "All checks are built and run with go1.26.8 (GOTOOLCHAIN=local) because testing/synctest provides the exact 'all goroutines blocked' signal the explorers need. ./check <ID> <tier> rebuilds from /repo's working tree with -tags verif.",
